@@ -22,6 +22,17 @@ class Injected(Exception):
     pass
 
 
+# injected faults are exceptions of many standard kinds, in rotation (all subclasses of Injected)
+_KINDS = [type("Injected" + b.__name__, (Injected, b), {}) for b in
+          (ValueError, AttributeError, KeyError, LookupError, TypeError, RuntimeError, OSError, ImportError, AssertionError)]
+_kind_counter = [0]
+
+
+def injected(text):
+    _kind_counter[0] += 1
+    return _KINDS[_kind_counter[0] % len(_KINDS)](text)
+
+
 # ---------------------------------------------------------------- scenarios
 @types.coroutine
 def trap():
@@ -270,7 +281,7 @@ class Injector:
     def tick(self, kind):
         self.counts[kind] = self.counts.get(kind, 0) + 1
         if self.target == (kind, self.counts[kind]):
-            self.exc = Injected("%s#%d" % (kind, self.counts[kind]))
+            self.exc = injected("%s#%d" % (kind, self.counts[kind]))
             self.exc.in_outermost = under_extract_outermost()
             self.exc.om_id = self.om_active[-1] if self.om_active else None
             self.fired = (kind, self.counts[kind])
@@ -480,7 +491,7 @@ def run_one(name, mk, inj, rec, max_k):
             def tick(kind, _fired=fired, _t=inj2_targets):
                 inj.counts[kind] = inj.counts.get(kind, 0) + 1
                 if (kind, inj.counts[kind]) in _t:
-                    e = Injected("%s#%d" % (kind, inj.counts[kind]))
+                    e = injected("%s#%d" % (kind, inj.counts[kind]))
                     e.in_outermost = under_extract_outermost()
                     e.om_id = inj.om_active[-1] if inj.om_active else None
                     _fired.append(e)
